@@ -67,7 +67,7 @@ pub fn check_fragment(node: &Node, ctx: Ctx, rep: &mut Report) -> Result<bool, F
     };
     let unit: Unit = oracle::unit_of(node, ctx).map_err(|e| Failure { sig: "mirror-encode".into(), msg: e })?;
     // all keys can sign: the table of valid signatures covers every key of the fragment
-    let mut world = World { keys: BTreeSet::new(), preimages: keys::u().preimages.iter().copied().collect(), lock_time: 0, sequence: 0 };
+    let mut world = World { keys: BTreeSet::new(), preimages: keys::u().preimages.iter().copied().collect(), lock_time: 0, sequence: 0, tx_version: 2 };
     let mut key_bytes_list: Vec<Vec<u8>> = Vec::new();
     for k in node.keys() {
         if let Ok(kb) = key_bytes(&k, ctx) {
